@@ -834,6 +834,7 @@ Definition SVC_MEMCACHED_UDP : N := 20%N.
 Definition SVC_TFTP : N := 21%N.
 Definition SVC_CS : N := 22%N.
 Definition SVC_DNS : N := 23%N.
+Definition SVC_DNS_BARE : N := 24%N.   (* the datagram connection itself, NOT how the server delivers it *)
 
 (* the code *)
 Definition impl_prog (svc : N) (fuel : nat) : prog :=
@@ -851,6 +852,7 @@ Definition impl_prog (svc : N) (fuel : nat) : prog :=
   else if beq svc SVC_TFTP then tftp_prog false
   else if beq svc SVC_CS then cs_prog false
   else if beq svc SVC_DNS then dns_prog KWrapped
+  else if beq svc SVC_DNS_BARE then dns_prog KDummyUDP
   else PDone 0.
 
 (* the reference reading of the same byte stream *)
@@ -869,6 +871,7 @@ Definition spec_prog (svc : N) (fuel : nat) : prog :=
   else if beq svc SVC_TFTP then tftp_prog true
   else if beq svc SVC_CS then cs_prog true
   else if beq svc SVC_DNS then dns_spec_prog
+  else if beq svc SVC_DNS_BARE then dns_spec_prog
   else PDone 0.
 
 Definition fuel_for (s : bytes) : nat := 3 * length s + 10.
